@@ -1,7 +1,7 @@
 """C11: the LEF reader never crashes or hangs on any UTF-8 text.
 Model Lef/LefLex.v + Lef/LefParse.v (parse), theorems Properties/C11.v, correspondence against
 lef21::LefLibrary::open / to_string through harness/src/bin/c04.rs (ops "rt", "time")."""
-import json, re, time
+import json, os, re, subprocess, sys, time
 from vlib import *
 from props.lefcommon import *
 
@@ -63,7 +63,8 @@ def gen_cases(chk, texts):
         if quick:
             idx = sorted(set(rng.sample(range(n), min(n, 70)) + [e for _, e in tokens(s)][:: max(1, len(tokens(s)) // 25)]))
         else:
-            idx = range(n)
+            # every prefix of the short texts; for long ones every token end plus a sample (memory: a run is held in RAM)
+            idx = range(n) if n <= 900 else sorted(set(rng.sample(range(n), 600) + [e for _, e in tokens(s)][:: max(1, len(tokens(s)) // 300)]))
         for i in idx:
             add("prefix", s[:i])
     # single-token faults
@@ -72,7 +73,7 @@ def gen_cases(chk, texts):
         tk = tokens(s)
         if not tk:
             continue
-        pos = range(len(tk)) if not quick else rng.sample(range(len(tk)), min(len(tk), 22))
+        pos = rng.sample(range(len(tk)), min(len(tk), 22 if quick else 120))
         for i in pos:
             a, e = tk[i]
             kinds = ["delete", "duplicate", "swap", "replace"] if not quick else [rng.choice(["delete", "duplicate", "swap", "replace", "replace"])]
@@ -85,7 +86,7 @@ def gen_cases(chk, texts):
                     a2, e2 = tk[i + 1]
                     add("tok_swap", s[:a] + s[a2:e2] + s[e:a2] + s[a:e] + s[e2:])
                 elif k == "replace":
-                    for r in (REPL if not quick else [rng.choice(REPL)]):
+                    for r in (rng.sample(REPL, 5) if not quick else [rng.choice(REPL)]):
                         add("tok_replace", s[:a] + r + s[e:])
     # insertion of 1-4 byte characters at token boundaries and inside tokens (names, comments, strings, numbers)
     for name, b in texts:
@@ -93,7 +94,7 @@ def gen_cases(chk, texts):
         tk = tokens(s)
         if not tk:
             continue
-        for _ in range(28 if quick else 400):
+        for _ in range(28 if quick else 200):
             a, e = rng.choice(tk)
             ch = rng.choice(UTF)
             where = rng.choice(["before", "after", "inside", "inside"])
@@ -159,37 +160,65 @@ def r2_code(r):
         return 1
     return 2 if ("panic" in r2 or "crash" in r2) else 0
 
-def evaluate(chk, cases, tag):
+def slim(r, code):
+    """keep the harness answer of a case only when something is wrong with it (memory)"""
+    if code == (0, 0) or code[0] == 3 and code[1] == 0:
+        rr = r["r"]
+        k = next((k for k in ("ok", "err", "panic", "crash") if k in rr), "?")
+        return {"r": {k: (json.dumps(rr[k])[:200] if k != "ok" else "...")}, "w": (True if r.get("w") is not None else None)}
+    return r
+
+def evaluate(chk, cases, tag, chunk=6000):
     cfg = model_cfg()
     for pr in MODEL_CFG_PROBLEMS:
         if ("translator (LEF defect flags): " + pr) not in chk.broken:
             chk.broken.append("translator (LEF defect flags): " + pr)
-    res = harness("c04", [{"op": "rt", "src": c["src"]} for c in cases])
-    items = []
-    for c, r in zip(cases, res):
-        if "r" not in r:          # the harness process itself died or hung on this case
-            r["r"] = {"crash": r.get("crash", "?")}
-        i = res_to_coq(r["r"])
-        wc = w_code(r)
-        rw = "0" if wc is None else "(c11_rewrite_check %d %d)" % (wc, r2_code(r))
-        items.append(pack63("(c11_check %s %s %s, %s)" % (cfg, cbytes(c["src"]), i, rw)))
-    outs = coq_eval_lists(C11_HDR, items, chk.rundir, tag, shard=120)
-    codes = []
-    for o in outs:
-        m = re.match(r"\(\(?(-?\d+)\)?(?:%Z)?, \(?(-?\d+)\)?(?:%Z)?\)", o.strip())
-        if not m:
-            raise RuntimeError("bad coq output %r" % o)
-        codes.append((int(m.group(1)), int(m.group(2))))
-    return res, codes
+    all_res, codes = [], []
+    for lo in range(0, len(cases), chunk):
+        part = cases[lo:lo + chunk]
+        res = harness("c04", [{"op": "rt", "src": c["src"]} for c in part])
+        items = []
+        for c, r in zip(part, res):
+            if "r" not in r:          # the harness process itself died or hung on this case
+                r["r"] = {"crash": r.get("crash", "?")}
+            i = res_to_coq(r["r"])
+            wc = w_code(r)
+            rw = "0" if wc is None else "(c11_rewrite_check %d %d)" % (wc, r2_code(r))
+            items.append(pack63("(c11_check %s %s %s, %s)" % (cfg, cbytes(c["src"]), i, rw)))
+        outs = coq_eval_lists(C11_HDR, items, chk.rundir, tag, shard=120)
+        del items
+        for o, r in zip(outs, res):
+            m = re.match(r"\(\(?(-?\d+)\)?(?:%Z)?, \(?(-?\d+)\)?(?:%Z)?\)", o.strip())
+            if not m:
+                raise RuntimeError("bad coq output %r" % o)
+            cd = (int(m.group(1)), int(m.group(2)))
+            codes.append(cd)
+            all_res.append(slim(r, cd))
+    return all_res, codes
 
 def run(chk, replay=None):
-    chk.proof_leg(["Lef/LefCheck.vo", "Lef/LefPack.vo"], "Properties/C11.v", ["Lef/LefLex_proofs.v", "Lef/LefParse_proofs.v", "Lef/LefSafety_proofs.v"], "Properties.C11")
+    # the iteration-counting copy of the parser model follows Lef/LefParse.v (C11_steps_linear proves it returns what the model returns)
+    g = subprocess.run([sys.executable, os.path.join(os.path.dirname(os.path.abspath(__file__)), "..", "gen_lef_parse_g.py")],
+                       capture_output=True, text=True)
+    if g.returncode != 0:
+        chk.broken.append("translator (Lef/LefParseG.v): " + (g.stderr or g.stdout)[-300:])
+    chk.proof_leg(["Lef/LefCheck.vo", "Lef/LefPack.vo"], "Properties/C11.v",
+                  ["Lef/LefLex_proofs.v", "Lef/LefParse_proofs.v", "Lef/LefSafety_proofs.v", "Lef/LefCount_proofs.v"], "Properties.C11")
     chk.assumptions += [
         "rust_decimal's Decimal::from_str is an external library: specified in Lef/LefDec.v from its source and validated by the correspondence; panics inside it are outside the model",
         "derive_builder `build()` and std formatting are modelled by their documented behaviour",
         "time: the theorems bound the model's fuel (tokens, bytes); wall-clock linearity and stack depth of the implementation are measured, not proved (partial)",
         "the model stands for %s" % model_cfg(),
     ]
+    _cfg = model_cfg()
+    _m = re.match(r"\(mkcfg (\w+)", _cfg)
+    charpos = _cfg == "cfg_orig" or bool(_m and _m.group(1) == "true")
+    chk.cov["theorems_cover_this_tree"] = not charpos
+    if charpos:
+        # the tree has the character-counting lexer again: C11_no_panic & co are stated for c_charpos = false and do not cover it;
+        # C11_no_panic_orig_refuted does, and its witness is among the hand-picked cases below (-> VIOLATION with that input)
+        chk.assumptions.append("THIS TREE's lexer counts characters (c_charpos = true): the theorems for the repaired lexer do not apply; "
+                               "C11_no_panic_orig_refuted applies (witness 'VERSION -\u00e9 ;')")
     if not getattr(chk, "model_ok", False):
         return
     if replay:
@@ -217,7 +246,7 @@ def run(chk, replay=None):
     chk.cov["impl_outcomes"] = outcomes
     chk.cov["rewrite_checked"] = sum(1 for r in res if r.get("w") is not None)
     chk.add_samples([{"kind": c["kind"], "src_tail": bytes.fromhex(c["src"])[-60:].decode("utf8", "replace"), "codes": cd,
-                      "impl": json.dumps(r["r"])[:200]} for c, r, cd in list(zip(cases, res, codes))[:: max(1, len(cases) // 6)]], k=6)
+                      "impl": json.dumps(r["r"])[:260]} for c, r, cd in list(zip(cases, res, codes))[:: max(1, len(cases) // 6)]], k=6)
     if not replay:
         tm, worst = timing(chk)
         chk.cov["timing"] = tm
